@@ -160,6 +160,9 @@ OperatorClasses == {"UnaryOpUGen", "BinaryOpUGen", "MulAdd", "Sum3", "Sum4"}
 ControlClasses == {"Control", "AudioControl", "TrigControl", "LagControl"}
 BookkeepingClasses == {"MaxLocalBufs"}      \* counter unit the library adds before the first LocalBuf
 \* control kinds of a program: 0 ir, 1 kr, 2 ar, 3 tr
+\* width of a control (array-valued parameters: w channels, one name) and the default of its channel ch
+CtlW(c) == IF "w" \in DOMAIN c THEN c.w ELSE 1
+CtlDef(c, ch) == IF CtlW(c) = 1 THEN c.d ELSE (c.d + ch) % 7
 CtlRate(r) == CASE r = 0 -> 0 [] r = 1 -> 1 [] r = 2 -> 2 [] r = 3 -> 1
 CtlClass(r) == CASE r = 0 -> "Control" [] r = 1 -> "Control" [] r = 2 -> "AudioControl" [] r = 3 -> "TrigControl"
 
@@ -227,7 +230,7 @@ Attrs(prog) == FoldLeft(LAMBDA acc, ins : Append(acc, InsAttr(ins, prog.ctl, acc
 
 OperandOK(o, n, prog) ==
     \/ o.k = "c"
-    \/ o.k = "p" /\ o.i \in 1..Len(prog.ctl)
+    \/ o.k = "p" /\ o.i \in 1..Len(prog.ctl) /\ o.ch >= 0 /\ o.ch < CtlW(prog.ctl[o.i])
     \/ o.k = "r" /\ o.i \in 1..(n - 1) /\ o.ch >= 0 /\ o.ch < prog.ins[o.i].nout
 \* shape of one instruction (class exists, arity, rate, operands refer backwards)
 InsShapeOK(prog, n) ==
@@ -279,7 +282,7 @@ InsDecidable(prog, n, at) ==
 ProgShapeOK(prog) ==
     /\ \A n \in 1..Len(prog.ins) : InsShapeOK(prog, n)
     /\ \A i, j \in 1..Len(prog.ctl) : i # j => prog.ctl[i].n # prog.ctl[j].n
-    /\ \A i \in 1..Len(prog.ctl) : prog.ctl[i].r \in 0..3 /\ Abs(prog.ctl[i].d) <= MagCap
+    /\ \A i \in 1..Len(prog.ctl) : prog.ctl[i].r \in 0..3 /\ Abs(prog.ctl[i].d) <= MagCap /\ CtlW(prog.ctl[i]) \in 1..2048
 Decidable(prog) ==
     ProgShapeOK(prog) /\ LET at == Attrs(prog) IN \A n \in 1..Len(prog.ins) : InsDecidable(prog, n, at)
 
@@ -350,7 +353,7 @@ BinVal(idx, a, b) ==
 (* meaning of the source program in environment k; slots[i] = control slot of parameter i.
    Result: for every instruction the tuple of its channel values.                              *)
 SrcOperand(o, k, vs, slots) ==
-    IF o.k = "c" THEN Modp(o.i) ELSE IF o.k = "p" THEN EnvC(k, slots[o.i]) ELSE vs[o.i][o.ch + 1]
+    IF o.k = "c" THEN Modp(o.i) ELSE IF o.k = "p" THEN EnvC(k, slots[o.i] + o.ch) ELSE vs[o.i][o.ch + 1]
 SrcIns(ins, n, k, vs, slots) ==
     LET v == [j \in 1..Len(ins.a) |-> SrcOperand(ins.a[j], k, vs, slots)] IN
     CASE ins.op = "gen" -> [ch \in 1..ins.nout |-> EnvU(k, n, ch - 1)]
@@ -436,18 +439,19 @@ OperatorWhy(d, u) ==
          THEN "operator-rate:" \o un.c
     ELSE "ok"
 
-\* control parameter i of the program: named in the definition, right default, right kind of unit
+\* control parameter i of the program: named in the definition, right defaults, right kind of unit, for every one of
+\* its channels (an array-valued control has width w and occupies w consecutive slots under ONE name)
 CtlSlot(d, name) == IF \E j \in 1..Len(d.names) : d.names[j].n = name
                     THEN d.names[CHOOSE j \in 1..Len(d.names) : d.names[j].n = name].i ELSE 0 - 1
 CtlWhy(prog, d, i) ==
     LET c == prog.ctl[i]
         s == CtlSlot(d, c.n) IN
-    IF s < 0 \/ s >= Len(d.ctl) THEN "control-missing"
-    ELSE IF d.ctl[s + 1].x # 1 \/ d.ctl[s + 1].v # c.d THEN "control-default"
-    ELSE IF ~\E u \in 1..Len(d.units) :
+    IF s < 0 \/ s + CtlW(c) > Len(d.ctl) THEN "control-missing"
+    ELSE IF \E ch \in 0..(CtlW(c) - 1) : d.ctl[s + ch + 1].x # 1 \/ d.ctl[s + ch + 1].v # CtlDef(c, ch) THEN "control-default"
+    ELSE IF \E ch \in 0..(CtlW(c) - 1) : ~\E u \in 1..Len(d.units) :
                 /\ d.units[u].c = CtlClass(c.r)
-                /\ d.units[u].sp <= s /\ s < d.units[u].sp + Len(d.units[u].outs)
-                /\ d.units[u].outs[s - d.units[u].sp + 1] = CtlRate(c.r)
+                /\ d.units[u].sp <= s + ch /\ s + ch < d.units[u].sp + Len(d.units[u].outs)
+                /\ d.units[u].outs[s + ch - d.units[u].sp + 1] = CtlRate(c.r)
          THEN "control-unit"
     ELSE "ok"
 
